@@ -50,6 +50,9 @@ pub enum Kind {
     N,
     /// unmatched path -> default service
     D,
+    /// enters scope `/s1` but matches no resource inside it -> default service reached from
+    /// inside the scope (leaves a partial routing trail behind)
+    S,
 }
 
 #[derive(Clone, Copy, PartialEq, Eq, Hash, Debug, PartialOrd, Ord)]
@@ -64,7 +67,7 @@ pub enum Beh {
     Cancel,
 }
 
-pub const KINDS: [Kind; 4] = [Kind::A, Kind::B, Kind::N, Kind::D];
+pub const KINDS: [Kind; 5] = [Kind::A, Kind::B, Kind::N, Kind::D, Kind::S];
 pub const BEHS: [Beh; 4] = [Beh::Plain, Beh::Ext, Beh::Stash, Beh::Cancel];
 
 #[derive(Clone, Copy, PartialEq, Eq, Hash, Debug)]
@@ -96,6 +99,7 @@ impl Kind {
             Kind::B => "B",
             Kind::N => "N",
             Kind::D => "D",
+            Kind::S => "S",
         }
     }
 }
@@ -184,6 +188,7 @@ pub fn build_request(key: ReqKey) -> Request {
         Kind::B => format!("/b/zb%20{tag}?b={tag}"),
         Kind::N => format!("/s1/in/n/w{tag}"),
         Kind::D => format!("/nomatch/{tag}/zz?d={tag}"),
+        Kind::S => format!("/s1/zz{tag}/nothing?s={tag}"),
     };
     let port = 1000 + key.tag as u16;
     let peer: SocketAddr = format!("10.0.{}.{}:{}", key.kind as u8, key.tag, port).parse().unwrap();
@@ -201,6 +206,7 @@ pub fn build_request(key: ReqKey) -> Request {
         Kind::B => tr.method(actix_web::http::Method::POST),
         Kind::N => tr.method(actix_web::http::Method::PUT),
         Kind::D => tr.method(actix_web::http::Method::DELETE),
+        Kind::S => tr.method(actix_web::http::Method::PATCH),
     };
     if key.beh != Beh::Plain {
         tr = tr.insert_header(("x-forwarded-for", format!("192.0.2.{}", key.tag)));
@@ -880,6 +886,7 @@ pub fn main(args: &Args) -> i32 {
     }
     let t0 = Instant::now();
     let len: usize = if args.tier == "quick" { 4 } else { 5 };
+    let quick = args.tier == "quick";
     let alpha = alphabet();
     let total = (alpha.len() as u64).pow(len as u32);
     let wall = args.wall_s.or(if args.tier == "quick" { None } else { Some(25 * 60) });
@@ -902,6 +909,11 @@ pub fn main(args: &Args) -> i32 {
                         let n = chunk.len() as u64;
                         for idx in chunk {
                             let ops = decode(idx, len, &alpha);
+                            // quick tier: the scope-404 request kind only with the plain handler
+                            // behaviour (thorough runs the full alphabet)
+                            if quick && ops.iter().any(|o| matches!(o, Op::Req(Kind::S, b) if *b != Beh::Plain)) {
+                                continue;
+                            }
                             let r = run_history(&ops, &refs, &mut st, idx, false).await;
                             for v in r.violations {
                                 viol.add(v);
